@@ -842,6 +842,13 @@ def Conv.raw (c : Conv) (l : Label) : Except Err (Seen × Conv) :=
     let r := releaseAll c.a b1 (transient l c.heldB)
     .ok ({ labels := [l], values := [(y, b1)] }, { c with a := r.1, b := r.2 })
 
+/-- `b` could not unbox a hand-made package: `_release_unreceived` sends one release notice for every `REMOTE_REF` no
+proxy took over — all of them when the failure is in the first pass (a stale `LOCAL_REF`); `a` processes them (a key it
+does not hold is answered with KeyError and changes nothing).  (A failure in the second pass behind a reference that was
+already taken over is not among the hand-made packages of the correspondence.) -/
+def Conv.rawFailed (c : Conv) (l : Label) : Conv :=
+  { c with a := { c.a with tbl := unaddAll c.a.tbl l.remoteRefs } }
+
 /-- `b` hands one of its own objects to `a`, whose application keeps the proxy -/
 def Conv.make (c : Conv) (id : Id) : Except Err (Seen × Conv) :=
   match xfer c.b c.a (.obj id) with
